@@ -237,7 +237,11 @@ func one(c *hx.Ctx, id string, cfg x.Config, scratch string) {
 			bb[len(bb)-1] += "!"
 		}
 	}
-	if v.IPG >= 11 { // below that the few-inodes defect corrupts the descriptors themselves
+	// no correspondence where a recorded defect corrupts the descriptors themselves: fewer than 11 inodes per
+	// group (few-inodes underflow), and sparse_super2, whose backup "block numbers" 1 and groups-1 make
+	// writeSuperblock put a superblock copy over block 1 - the primary group descriptor table when the block
+	// size is 2 or 4 KiB
+	if v.IPG >= 11 && cfg.Sparse != 2 {
 		modelCase()
 		c.Impl(id, fmt.Sprintf("bs=%d", v.BlockSize), fmt.Sprintf("nb=%d", v.BlocksCount), fmt.Sprintf("bpg=%d", v.BPG),
 			fmt.Sprintf("groups=%d", len(v.Groups)), fmt.Sprintf("ipg=%d", v.IPG), fmt.Sprintf("icount=%d", v.InodesCount),
